@@ -550,4 +550,47 @@ def poolStep {β ν δ : Type} (lib : Lib β ν δ) (pool : List (PState β δ))
     let r := tryPack lib m heap fresh
     (r.st :: pool, r)
 
+/-! ### who holds a pooled state
+
+`sync.Pool` is a bag of states; a pack `Get`s one (any pooled one, or a new
+one), and on its way out `Put`s it back.  Packs overlap in time — concurrent
+requests, or a pack started from inside another pack's consumer — so the
+pool's discipline is a property of ALL interleavings of `get` / `finish`
+events.  States are identities (`Nat`). -/
+
+/-- the ways a `TryPack` that has taken a state can end. -/
+inductive Exit where
+  | packFailed      -- `packInto` reported `ok = false`
+  | consumed        -- `consume` returned nil
+  | consumerError   -- `consume` returned an error (the transport write failed)
+  | consumerPanic   -- `consume` panicked
+deriving Repr, DecidableEq
+
+/-- how often `TryPack` puts its state back on each way out:
+`defer state.release()` right after the `Get` — exactly once, whatever happens. -/
+def tryPackPuts : Exit → Nat := fun _ => 1
+
+structure Own where
+  pool : List Nat := []       -- resting in the pool (with multiplicity)
+  borrowed : List Nat := []   -- held by packs in flight
+  next : Nat := 0             -- `New` allocates this identity
+deriving Repr
+
+inductive OwnEv where
+  | get (pick : Option Nat)          -- a pack starts: `Get` returns pooled state `pick`, or a new one
+  | finish (id : Nat) (e : Exit)     -- the pack holding `id` ends through exit `e`
+deriving Repr
+
+def ownStep (puts : Exit → Nat) (s : Own) : OwnEv → Own
+  | .get (some id) =>
+    if id ∈ s.pool then { s with pool := s.pool.erase id, borrowed := id :: s.borrowed }
+    else { s with borrowed := s.next :: s.borrowed, next := s.next + 1 }
+  | .get none => { s with borrowed := s.next :: s.borrowed, next := s.next + 1 }
+  | .finish id e =>
+    if id ∈ s.borrowed then
+      { s with borrowed := s.borrowed.erase id, pool := List.replicate (puts e) id ++ s.pool }
+    else s
+
+def ownRun (puts : Exit → Nat) (evs : List OwnEv) : Own := evs.foldl (ownStep puts) {}
+
 end SdnsVerif.Model.Packer
